@@ -456,15 +456,41 @@ theorem locked_artifact_is_atomic (g0 : Graph V) (sy : GSys (Graph V)) (h : GExe
   rw [(critical_section_atomic g0 sy h).1 t start _ hpc, artifactTrace_eval start hac hra i s hs ho]
   rfl
 
-/-- a concrete execution of the fine-grained system with two clients: client 0 is inside its
-    critical section (two micro-steps done) while client 1 is waiting for the lock -/
-example : ∃ s : GSys Nat, GExec 0 s ∧ s.g = 12 ∧ (s.pc 0).isCrit = true ∧ (s.pc 1).isCrit = false := by
-  refine ⟨_, .step (.step (.step (.step (.step .init (.request _ 0 rfl)) (.request _ 1 rfl))
-    (.acquire _ 0 rfl rfl)) (.micro _ 0 0 [] (· + 5) rfl)) (.micro _ 0 0 [(· + 5)] (· + 7) rfl), rfl, rfl, rfl⟩
+/-! ### linearizability of the FINE-GRAINED locked system (critical sections are many steps) -/
 
-/-! ### non-vacuity: a concrete interleaved execution of the locked system -/
+omit [DecidableEq V] in
+/-- **refinement**: every execution of the fine-grained locked system `FExec` — the lock owner
+    performs any number of micro-steps on the shared state between `Lock` and `Unlock`, arbitrarily
+    interleaved with the other clients' steps; at `finish` its micro-steps compose to the
+    sequential effect of its call — is, through the abstraction `FSys.abs` (a client inside its
+    critical section counts as `holding`, the shared state is the one the owner found), an
+    execution of the atomic system `Exec`, with the same history and the same critical-section
+    order.  The proof uses the lock: mutual exclusion and `atomic` (`FInv`). -/
+theorem fine_refines_atomic (g0 : Graph V) (s : FSys V) (h : FExec F g0 s) :
+    Exec F g0 s.abs ∧ s.abs.hist = s.hist ∧ s.abs.lin = s.lin :=
+  ⟨fine_refines g0 s h, rfl, rfl⟩
 
-example : Init 4 dia := by
+/-- hence **every execution of the fine-grained locked system is linearizable**, by the order in
+    which the critical sections finished; this theorem depends on the lock (through the refinement) -/
+theorem fine_linearizable (g0 : Graph V) (s : FSys V) (h : FExec F g0 s) :
+    Linearization F g0 s.hist s.lin :=
+  (linearizable g0 s.abs (fine_refines g0 s h)).1
+
+omit [DecidableEq V] in
+/-- the side condition of `FStep.finish` ("the owner's micro-steps compose to the sequential effect
+    of its call") holds for the programs of the three entry points: a single step for
+    `UpdateParameter` / `ParameterData` (and for an `Artifact` whose producer is processed), the
+    trace `artifactTrace` for an `Artifact` whose producer is outdated -/
+theorem programs_correct (g : Graph V) (hac : Acyclic F g) (hra : ReadsAll g) (c : Call V) :
+    [fun a => (seqStep F a c).1].foldl (fun a f => f a) g = (seqStep F g c).1 ∧
+    ∀ i s, c = .artifact i → g i = .struct s → Outdated F g i = true →
+      (artifactTrace F i s g s.deps []).foldl (fun a f => f a) g = (seqStep F g c).1 := by
+  refine ⟨rfl, ?_⟩
+  intro i s hc hs ho
+  subst hc
+  exact artifactTrace_eval g hac hra i s hs ho
+
+theorem dia_init : Init 4 dia := by
   refine ⟨⟨fun i => if i < 4 then i else 0, ?_, ?_⟩, ?_⟩
   · intro i; dsimp only; split <;> omega
   · intro i s hs d hd
@@ -486,6 +512,39 @@ example : Init 4 dia := by
       subst hs
       rfl
     | n+4 => simp [dia] at hs
+
+theorem dia_readsAll : ReadsAll dia := by
+  intro i s hs
+  match i with
+  | 0 => simp [dia] at hs
+  | 1 | 2 | 3 =>
+    simp only [dia, mkN, Node.struct.injEq] at hs
+    subst hs
+    rfl
+  | n+4 => simp [dia] at hs
+
+/-- a concrete execution of the fine-grained system with histories: client 0 is in the middle of
+    `Artifact(3)` on the diamond (it has pulled L, not yet R) while client 1 invokes an update and
+    has to wait; then client 0 finishes — the hypothesis `FExec` of `fine_linearizable` -/
+example : ∃ s : FSys Nat, FExec 4 dia s ∧ s.hist = [.inv 0 0 (.artifact 3), .inv 1 1 (.update 0 10)] ∧
+    s.lin = [⟨0, 0, .artifact 3, .val 5⟩] ∧ s.lock = none := by
+  refine ⟨_, .step (.step (.step (.step (.step (.step (.step .init
+    (.invoke _ 0 (.artifact 3) rfl)) (.acquire _ 0 0 (.artifact 3) rfl rfl))
+    (.micro _ 0 0 (.artifact 3) dia [] (fun g => (Eval 4 g 1).1) rfl))
+    (.invoke _ 1 (.update 0 10) rfl))
+    (.micro _ 0 0 (.artifact 3) dia _ (fun g => (Eval 4 g 2).1) rfl))
+    (.micro _ 0 0 (.artifact 3) dia _ (fun g => g.set 3 (.struct ((mkN [some 1, some 2]).executed g [2, 2]))) rfl))
+    (.finish _ 0 0 (.artifact 3) dia _ rfl ?_), rfl, ?_, rfl⟩
+  · exact artifactTrace_eval (F := 4) dia dia_init.1 dia_readsAll 3 (mkN [some 1, some 2]) rfl (by decide)
+  · decide
+
+/-- a concrete execution of the fine-grained system with two clients: client 0 is inside its
+    critical section (two micro-steps done) while client 1 is waiting for the lock -/
+example : ∃ s : GSys Nat, GExec 0 s ∧ s.g = 12 ∧ (s.pc 0).isCrit = true ∧ (s.pc 1).isCrit = false := by
+  refine ⟨_, .step (.step (.step (.step (.step .init (.request _ 0 rfl)) (.request _ 1 rfl))
+    (.acquire _ 0 rfl rfl)) (.micro _ 0 0 [] (· + 5) rfl)) (.micro _ 0 0 [(· + 5)] (· + 7) rfl), rfl, rfl, rfl⟩
+
+/-! ### non-vacuity: a concrete interleaved execution of the locked system -/
 
 /-- a concrete interleaved execution of the locked system (hypothesis `Exec` of `linearizable`):
     client 0 invokes `Artifact(3)`, client 1 invokes and completes `UpdateParameter(0, 10)` first,
